@@ -1,8 +1,8 @@
 import TaskModel.Sched.LiveMain
 /-!
-Sched.LiveFinal — what a configuration in which no label is accepted looks like (acyclic
-program): every activation has returned, every slot is free, and every call given to `Run`
-has entered unless (sequential `Run`) an earlier call failed.
+Sched.LiveFinal — the calls given to `Run`: every recorded one is an activation (`TopsInv`),
+a call whose turn has come may enter (`top_enter_enabled`).  Used by `quiescent_final_all`
+(`LiveAll.lean`): a configuration in which no label is accepted is final.
 -/
 namespace TaskModel.Sched.S7
 
@@ -57,73 +57,5 @@ theorem top_enter_enabled (P : Program) (F : Flags) (c : Config) (k t : Nat) (hk
   · subst h
     simp [step, enterAct, fresh_id c, enterCheck, hge, hfree]
   · simp [step, enterAct, fresh_id c, enterCheck, hge, hfree, h1, h2, h3]
-
-/-- **a configuration that accepts no label is final** -/
-theorem quiescent_final (P : Program) (F : Flags) (rank : Nat → Nat) (hr : SemiRankOk P rank) (n : Nat)
-    (tr : List Label) (c : Config) (hcap : F.cap ≠ some 0) (hk : KeysByTask tr)
-    (h : replay P F (init n) tr = some c) (hq : ∀ l, step P F c l = none) :
-    (∀ a x, c.act? a = some x → x.phase = .done) ∧ c.tokens = 0 ∧
-    (∀ k, k < n → (c.tops.lookup k).isSome = true ∨
-      (F.parallel = false ∧ ∃ k' id r, k' < k ∧ c.tops.lookup k' = some id ∧ kidDone c id = some r ∧
-        r.isOk = false)) := by
-  have hstuck : ∀ l, ¬ (step P F c l).isSome = true := by intro l hl; rw [hq l] at hl; cases hl
-  have hdone : ∀ a x, c.act? a = some x → x.phase = .done := by
-    intro a x hx
-    cases hp : decide (x.phase = .done) with
-    | true => simpa using hp
-    | false =>
-      have hnd : x.phase ≠ .done := by simpa using hp
-      obtain ⟨l, hl⟩ := no_deadlock P F rank hr n tr c hcap hk h a x hx hnd
-      exact absurd hl (hstuck l)
-  obtain ⟨hlive, _, htok⟩ := live_trace_reach P F n tr c h
-  have htops := replay_inv P F (TopsInv n) (fun c l c' hi hs => topsInv_step P F n c l c' hi hs) (init n) tr c
-    (topsInv_init n) h
-  refine ⟨hdone, ?_, ?_⟩
-  · rw [htok.2.2]
-    unfold holders cnt
-    rw [List.countP_eq_zero]
-    intro a _
-    unfold actB
-    cases hx : c.act? a with
-    | none => simp
-    | some x =>
-      have := (hlive.loc a x hx).holds
-      unfold HoldsInv at this
-      rw [hdone a x hx] at this
-      simp [this, holdPhase]
-  · intro k
-    induction k using Nat.strongRecOn with
-    | _ k ih =>
-      intro hkn
-      cases hlk : c.tops.lookup k with
-      | some _ => left; rfl
-      | none =>
-        right
-        have hkc : k < c.ncalls := by rw [htops.ncalls]; exact hkn
-        have hno : ¬ (F.parallel = true ∨ k = 0 ∨
-            ∃ pid r, c.tops.lookup (k - 1) = some pid ∧ kidDone c pid = some r ∧ r.isOk = true) := by
-          intro hprev
-          obtain ⟨l, hl⟩ := top_enter_enabled P F c k 0 hkc hlk hprev
-          exact hstuck l hl
-        have hpar : F.parallel = false := by
-          cases hp : F.parallel with
-          | false => rfl
-          | true => exact absurd (.inl hp) hno
-        have hk0 : k ≠ 0 := fun e => hno (.inr (.inl e))
-        refine ⟨hpar, ?_⟩
-        cases hprev : c.tops.lookup (k - 1) with
-        | none =>
-          rcases ih (k - 1) (by omega) (by omega) with hs | ⟨_, k', id, r, h1, h2, h3, h4⟩
-          · rw [hprev] at hs; cases hs
-          · exact ⟨k', id, r, by omega, h2, h3, h4⟩
-        | some pid =>
-          have hb := htops.bound (k - 1) pid hprev
-          cases hz : c.act? pid with
-          | none => rw [hz] at hb; cases hb
-          | some z =>
-            have hkd : kidDone c pid = some z.res := by simp [kidDone, hz, hdone pid z hz]
-            cases hok : z.res.isOk with
-            | true => exact absurd (.inr (.inr ⟨pid, z.res, hprev, hkd, hok⟩)) hno
-            | false => exact ⟨k - 1, pid, z.res, by omega, hprev, hkd, hok⟩
 
 end TaskModel.Sched.S7
